@@ -111,10 +111,37 @@ theorem tot_ackWs (f : Pc → Nat) (hf : ∀ b site lg, f (.cwAck b site lg) = f
     tot trlkW (ackWs ws w b) = tot trlkW ws :=
   tot_ackWs _ (by intro b site lg; cases site <;> rfl) ws w b
 
+@[simp] theorem bgClk_parked : bgClk .parked = 0 := rfl
+@[simp] theorem clearW_parked (i : Nat) : clearW .parked i = .parked := rfl
+
+theorem afterCmd_cases (cfg : Cfg) (s : St) (b : Bool) : afterCmd cfg s b = .idle ∨ afterCmd cfg s b = .parked := by
+  unfold afterCmd; split <;> simp
+@[simp] theorem bgClk_afterCmd (cfg : Cfg) (s : St) (b : Bool) : bgClk (afterCmd cfg s b) = 0 := by
+  rcases afterCmd_cases cfg s b with h | h <;> rw [h] <;> rfl
+
+/-- threads between the two `select`s of `SetReadOnly` -/
+def srW : Pc → Nat | .srSet => 1 | _ => 0
+
+/-- the token is in `writeLockC` iff exactly one owner claims it -/
+def TokE (s : St) : Prop := tot tokW s.ws + b2n s.trOpen + b2n s.ehTok + b2n s.closeTok = b2n s.tok
+/-- if the token is in `writeLockC`, somebody claims it -/
+def TokW (s : St) : Prop := b2n s.tok ≤ tot tokW s.ws + b2n s.trOpen + b2n s.ehTok + b2n s.closeTok
+def ClkI (s : St) : Prop := tot clkW s.ws + bgClk s.mc + bgClk s.tc = b2n s.clk
+def TrlkI (s : St) : Prop := tot trlkW s.ws = b2n s.trlk
+
 /-- every resource is held by exactly its owners -/
 structure RInv (s : St) : Prop where
   tokI : tot tokW s.ws + b2n s.trOpen + b2n s.ehTok + b2n s.closeTok = b2n s.tok
   clkI : tot clkW s.ws + bgClk s.mc + bgClk s.tc = b2n s.clk
   trlkI : tot trlkW s.ws = b2n s.trlk
+
+/-- `compCommitLk` and `tr.lk` are held by exactly their owners; a token in `writeLockC` has an owner (both
+take-backs of `compWriteLocking` are blind: after `Close` has begun an owner can find its token gone) -/
+structure RInvW (s : St) : Prop where
+  tokI : b2n s.tok ≤ tot tokW s.ws + b2n s.trOpen + b2n s.ehTok + b2n s.closeTok
+  clkI : tot clkW s.ws + bgClk s.mc + bgClk s.tc = b2n s.clk
+  trlkI : tot trlkW s.ws = b2n s.trlk
+
+theorem RInv.weak {s : St} (h : RInv s) : RInvW s := ⟨by have := h.tokI; omega, h.clkI, h.trlkI⟩
 
 end GoLevel.Locks
